@@ -122,8 +122,8 @@ def worker(arg):
 
 def check(tier, seed):
     t = pc.trees("plain", "san")
-    n = 120 if tier == "quick" else 1600
-    nsan = 8 if tier == "quick" else 100
+    n = 120 if tier == "quick" else 600
+    nsan = 8 if tier == "quick" else 40
     res = Result("exploration")
     res.rule = RULE
     base = seed * 1000000 + (0 if tier == "quick" else 50000) + 700000
